@@ -488,7 +488,7 @@ func TestVerif_C28(t *testing.T) {
 	r.Assume("eACL does not apply to inner ring / container nodes and the sticky bit does not apply to container nodes (NeoFS definitions the statement does not spell out)")
 	r.Assume("object-header filters see the headers the protocol defines for the operation: full header for GET/HEAD/PUT, container+object ID for RANGE/DELETE, container ID for SEARCH")
 
-	nCases := r.Pick(6000, 150000)
+	nCases := r.Pick(9000, 150000)
 
 	prng := r.Rand("pool", 0)
 	usersPool := make([]vf28Key, 4)
